@@ -51,6 +51,8 @@ LINK_CORE = ["[link](http://ex.com/a)", "[two words](http://ex.com/a_b?q=1&r=2)"
              "<https://example.org/notes.txt~>", "https://github.com/org/repo/compare/v1.0...v2.0", "<https://x.y/a...b>",
              "[sp](<http://x.y/a b>)", "![i](<my img.png> \"t\")", "[p](<http://x.y/(a>)",
              "[文档](https://example.com/wiki/中文doc)", "https://example.com/文档v2", "![图alt](img中文2.png)",
+             # quotes that are part of the title; other title delimiters
+             "[qt](http://x.y/q '\"quoted\" title')", "[pt](http://x.y/p (paren \"q\" t))",
              # a backslash that is part of the destination (written doubled before punctuation; a bare one before a letter)
              "[bs](docs\\\\*star.md)", "[win](C:\\dir\\file.md)", "[endbs](<dir name\\\\>)", "![bsi](p\\\\_q.png)"]
 LINK_HOSTILE = ["[sp](<http://x.y/a b>)", "[t](http://x.y 'single')", "[p](http://x.y (paren))", "[dots. End](http://x.y)",
@@ -344,10 +346,7 @@ class Gen:
                     lab = f"ref label {len(self.ref_labels) + 1}"  # several words: the spaces inside the brackets are layout
                 self.ref_labels.append(lab)
                 self.feats.add("lrd")
-                title = r.choice([None, None, '"Title here"', '"it\'s"'])
-                if self.hostile and r.random() < 0.3:
-                    title = r.choice(["'single q'", "(paren t)"])
-                    self.feats.add("lrd-title-hostile")
+                title = r.choice([None, None, '"Title here"', '"it\'s"', "'single q'", "(paren t)", "'say \"hi\" now'"])
                 return {"t": "lrd", "label": lab, "dest": r.choice(["http://ref.example/x", "/rel/path_a", "<http://a.b/c>"]),
                         "title": title}
             lab = f"n{len(self.fn_labels) + 1}"
